@@ -74,7 +74,7 @@ class C17(Prop):
                    "max_retries is a non-negative integer or None (None = no bound: C17_completes_below_limit shows "
                    "the job then never fails the run)")
     MAX_WORKERS = 8
-    CASE_TIMEOUT = 90
+    CASE_TIMEOUT = 200
     SHARD_TIMEOUT = 900
     COQ_SHARD = 60
 
